@@ -236,14 +236,22 @@ func MapLens[M ~map[string]int](h *H, what string, l optics.Lens[M, int], key st
 	}
 	m := M{}
 	keys := []string{"a", "b", key + "x", "", "zz"}
-	for _, k := range keys {
-		if rapid.Bool().Draw(h.RT, "present") {
-			m[k] = rapid.IntRange(-5, 5).Draw(h.RT, "val")
+	// class first: an existing but EMPTY map, a map holding only the key, anything
+	switch rapid.IntRange(0, 4).Draw(h.RT, "mapclass") {
+	case 0:
+	case 1:
+		m[key] = rapid.IntRange(-5, 5).Draw(h.RT, "kval")
+	default:
+		for _, k := range keys {
+			if rapid.Bool().Draw(h.RT, "present") {
+				m[k] = rapid.IntRange(-5, 5).Draw(h.RT, "val")
+			}
+		}
+		if rapid.Bool().Draw(h.RT, "keyPresent") {
+			m[key] = rapid.IntRange(-5, 5).Draw(h.RT, "kval")
 		}
 	}
-	if rapid.Bool().Draw(h.RT, "keyPresent") {
-		m[key] = rapid.IntRange(-5, 5).Draw(h.RT, "kval")
-	}
+	alias := m // a second reference to the same map: the write must be visible through it
 	model := map[string]int{}
 	for k, v := range m {
 		model[k] = v
@@ -262,6 +270,10 @@ func MapLens[M ~map[string]int](h *H, what string, l optics.Lens[M, int], key st
 	model[key] = v
 	if reflect.ValueOf(m).Pointer() != ident {
 		h.Failf("%s: Put replaced the map instead of setting the key", what)
+		return
+	}
+	if !reflect.DeepEqual(map[string]int(alias), model) {
+		h.Failf("%s: after Put(%q, %d) a second reference to the same map sees %v, want %v", what, key, v, map[string]int(alias), model)
 		return
 	}
 	if !reflect.DeepEqual(map[string]int(m), model) {
